@@ -73,7 +73,7 @@ def run_bounded(prop, tier, seed):
 def try_native_replay(prop, ob, fuc):
     """Replay a counter-model on the real code.  Returns dict(reproduced=bool|None, detail=...)."""
     script = os.path.join(VERIF, 'oracle', 'replay_model.py')
-    if not os.path.exists(script) or not ob.get('model'):
+    if not os.path.exists(script) or ob.get('model') is None:
         return {'reproduced': None, 'detail': 'no scenario builder for this obligation'}
     payload = json.dumps({'prop': prop, 'obligation': ob['name'], 'model': ob['model'], 'fuc': fuc})
     try:
